@@ -73,6 +73,10 @@ class Ctx:
         self.syms[name] = s
         return s
 
+    def preregister(self, ints):
+        for k in sorted(set(int(i) for i in ints)):
+            self.hash_tokens.append((z3.IntVal(k), hash(k)))
+
     def assume(self, e):
         if isinstance(e, SymBool):
             e = e.e
@@ -412,17 +416,11 @@ class SymInt:
 
     def __hash__(self):
         s = z3.simplify(self.e)
-        if z3.is_int_value(s):
-            return hash(s.as_long())
         if HASH_MODE == "structural":
+            if z3.is_int_value(s):
+                return hash(s.as_long())
             return _TOKEN_BASE + s.hash()
-        c = cur()
-        for (e, tok) in c.hash_tokens:
-            if e.eq(s) or c.decide(e == s):
-                return tok
-        tok = _TOKEN_BASE + len(c.hash_tokens) * 7919
-        c.hash_tokens.append((s, tok))
-        return tok
+        return decided_token(s)
 
     def __str__(self):
         c = Ctx.cur
@@ -435,6 +433,29 @@ class SymInt:
 
     def __format__(self, spec):
         return repr(self)
+
+
+def decided_token(s):
+    """M5 decided mode: the hash token of an integer term.  Numerals get their real hash; a symbolic term gets the token
+    of the first earlier term the path decides it equal to (fork), else a fresh one.  Pre-register (Ctx.preregister) every
+    plain python int that can be hashed at C level so that a proxy equal to it hashes like it."""
+    c = cur()
+    if z3.is_int_value(s):
+        k = s.as_long()
+        for (e, tok) in c.hash_tokens:
+            if z3.is_int_value(e) and e.as_long() == k:
+                return tok
+        for (e, tok) in c.hash_tokens:
+            if not z3.is_int_value(e) and c.decide(e == s):
+                return tok
+        c.hash_tokens.append((s, hash(k)))
+        return hash(k)
+    for (e, tok) in c.hash_tokens:
+        if e.eq(s) or c.decide(e == s):
+            return tok
+    tok = _TOKEN_BASE + (len(c.hash_tokens) + 1) * 7919
+    c.hash_tokens.append((s, tok))
+    return tok
 
 
 class SymQ:
